@@ -68,15 +68,21 @@ func runC02(c *Ctx) {
 	for i := 0; i < c.N(6, 120); i++ {
 		spec := smallPESpec(rng)
 		spec.certs = nil
+		if i%3 == 1 {
+			spec.nrva = 5 + rng.Intn(11) // fewer than sixteen data directories
+		}
 		im := spec.build(rng)
 		p, err := authenticode.Parse(bytes.NewReader(im.bytes))
 		if err != nil {
+			// the generator makes well-formed images: one that cannot be parsed or signed is reported
+			c.Rep.Record("C02/library/setup", "parse", true, "", []string{hx(im.bytes)}, "violation", []string{"a well-formed image is not accepted: " + err.Error()}, map[string]string{"class": "setup"})
 			continue
 		}
 		key := rsaKey(2048, i%2)
 		cert := simpleCert(key, fmt.Sprintf("image signer %d", i%2), int64(300+i%2))
 		sig, err := p.Sign(key, cert)
 		if err != nil {
+			c.Rep.Record("C02/library/setup", "sign", true, "", []string{hx(im.bytes)}, "violation", []string{"a well-formed image cannot be signed: " + err.Error()}, map[string]string{"class": "setup"})
 			continue
 		}
 		blobs := [][]byte{sig}
@@ -133,7 +139,11 @@ func runC02(c *Ctx) {
 				check("byte-change-exhaustive", m, false)
 			}
 		}
-		for k := 0; k < nflip; k++ {
+		flipsHere := nflip
+		if si.name != "library" && flipsHere > 40 {
+			flipsHere = 40 // the 55 KB fixture costs seconds per evaluation in the extracted SHA-256
+		}
+		for k := 0; k < flipsHere; k++ {
 			r := si.region[k%len(si.region)]
 			if r.end <= r.start {
 				continue
